@@ -234,25 +234,30 @@ def render_v3000(mol: Mol, style: V3Style | None = None, rng: random.Random | No
     plain_bond_ids = list(bond_order)
     next_free = max(index_map) + 1 if index_map else 1
     if style.star and bonds:
-        # pick a centre atom with >= 1 bond; bundle some of its bonds of one type into a star bond
-        by_centre = {}
-        for bi in bond_order:
-            i, j, t = bonds[bi]
-            by_centre.setdefault((i, t), []).append((bi, j))
-            by_centre.setdefault((j, t), []).append((bi, i))
-        keys = sorted(by_centre)
-        (centre, t) = rng.choice(keys)
-        group = by_centre[(centre, t)]
-        k = rng.randint(1, len(group))
-        chosen = rng.sample(group, k)
-        for bi, _ in chosen:
-            plain_bond_ids.remove(bi)
-        star_idx = next_free
-        next_free += 1
-        star_bonds.append((star_idx, t, centre, [other for _, other in chosen]))
+        # bundle some bonds of one centre atom and one bond type into a star bond (ENDPTS); one or two star atoms per file
+        for _rep in range(rng.choice([1, 1, 2])):
+            by_centre = {}
+            for bi in plain_bond_ids:
+                i, j, t = bonds[bi]
+                by_centre.setdefault((i, t), []).append((bi, j))
+                by_centre.setdefault((j, t), []).append((bi, i))
+            if not by_centre:
+                break
+            keys = sorted(by_centre)
+            (centre, t) = rng.choice(keys)
+            group = by_centre[(centre, t)]
+            k = rng.randint(1, len(group))
+            chosen = rng.sample(group, k)
+            for bi, _ in chosen:
+                plain_bond_ids.remove(bi)
+            star_idx = next_free
+            next_free += rng.choice([1, 1, 5])
+            star_bonds.append((star_idx, t, centre, [other for _, other in chosen]))
+            obs.setdefault("star_endpoints", {})
+            obs["star_endpoints"][str(k)] = obs["star_endpoints"].get(str(k), 0) + 1
         obs["star_files"] = obs.get("star_files", 0) + 1
-        obs.setdefault("star_endpoints", {})
-        obs["star_endpoints"][str(k)] = obs["star_endpoints"].get(str(k), 0) + 1
+        if len(star_bonds) > 1:
+            obs["multi_star_files"] = obs.get("multi_star_files", 0) + 1
 
     lines = []
     header = style.header or [mol.name or "", "  rvharness", ""]
